@@ -12,6 +12,8 @@ package core
 //@   ensures result != nil
 //@ extern errors.Is
 //@   attr pure deterministic nopanic
+//@ extern errors.As
+//@   attr pure deterministic nopanic
 //@ extern fmt.Errorf
 //@   attr pure deterministic nopanic
 //@   ensures result != nil
@@ -337,3 +339,13 @@ package core
 //@   attr trusted
 //@   requires core != nil
 //@   modifies anything
+
+// a body lexeme recorded for a directive lies inside its file
+//@ pred bodyOK(d *directive.Directive) := imp(d.BodyCoords.file != nil, d.BodyCoords.begin <= d.BodyCoords.end + 1
+//@     && d.BodyCoords.end + 1 <= len(d.BodyCoords.file.content.data))
+//@ func (*JApiCore).addRequest(core, d)
+//@   property C03
+//@   requires core != nil && core.catalog != nil && directive.dirOK(d) && bodyOK(d)
+//@   modifies anything
+//@   ensures[C03,@setter-error-reported] imp(core.catalog == old(core.catalog) && core.catalog.gFailed > old(core.catalog.gFailed), result != nil)
+//@   ensures[C03,@forbidden-annotation] imp(old(d.Annotation) != "", result != nil)
